@@ -83,6 +83,10 @@ func (r *Relay) Validate(
 		Chain:              r.Proof.Blockchain,
 		SessionBlockHeight: r.Proof.SessionBlockHeight,
 	}
+	// an allowance of zero relays can never be served (and GetTotalProofs would log.Fatalf on it)
+	if !maxPossibleRelays.IsPositive() {
+		return sdk.ZeroInt(), NewOverServiceError(ModuleName)
+	}
 	// validate unique relay
 	evidence, totalRelays := GetTotalProofs(header, RelayEvidence, maxPossibleRelays, servicerNode.EvidenceStore)
 	if servicerNode.EvidenceStore.IsSealed(evidence) {
